@@ -382,6 +382,10 @@ pub fn run_c09(ctx: &Ctx) {
     );
     ctx.search("wide", ctx.n(120_000, 10_000_000), &move || gen::conformant_case(c, BuildOpts::WIDE), &oracle_c09);
     ctx.search("hostile", ctx.n(200_000, 20_000_000), &gen::hostile_case, &oracle_c09);
+    for (k, name) in ["datagram-sized-many-records", "datagram-sized-many-fields", "datagram-sized-many-sets"].iter().enumerate() {
+        let big = StreamCfg::datagram_sized(c.mix, k);
+        ctx.search(name, ctx.n(120, 6_000), &move || with_strict(gen::conformant_case_lossless(big, LOSSLESS.big())), &oracle_c09);
+    }
 }
 
 pub fn run_c10(ctx: &Ctx) {
@@ -395,4 +399,8 @@ pub fn run_c10(ctx: &Ctx) {
     );
     ctx.search("wide", ctx.n(120_000, 10_000_000), &move || gen::conformant_case(c, BuildOpts::WIDE), &oracle_c10);
     ctx.search("hostile", ctx.n(200_000, 20_000_000), &gen::hostile_case, &oracle_c10);
+    for (k, name) in ["datagram-sized-many-records", "datagram-sized-many-fields", "datagram-sized-many-sets"].iter().enumerate() {
+        let big = StreamCfg::datagram_sized(c.mix, k);
+        ctx.search(name, ctx.n(120, 6_000), &move || with_strict(gen::conformant_case_lossless(big, LOSSLESS.big())), &oracle_c10);
+    }
 }
